@@ -74,6 +74,8 @@ def make_doc(n, wide=False):
     an explicit '...' and followed by comment / blank lines (as many units again, at least one line)"""
     if wide == 'run':
         return '--- x' + '\u00e9' * max(0, (n - 6) // 2) + '\n'
+    if wide == 'dirs':            # a directive prologue of about n units in front of a small closed document
+        return ''.join('%%TAG !h%d! tag:e.com,%d:\n' % (i, i) for i in range(max(1, (n - 8) // 24))) + '--- "v"\n'
     if wide == 'fseq':            # a flow sequence: closed, so that a directive may follow without '...'
         return '--- [' + 'item, ' * max(0, (n - 10) // 6) + 'item]\n'
     if wide in LONG_TOKENS:       # the whole document is one token of about n units (plain, quoted, or a comment after a value)
@@ -231,7 +233,8 @@ BADS = [('scanner', '--- "a\\qb"\n'), ('scanner2', '--- a: b: c\n'), ('parser', 
         ('raw-scanner', '@ not yaml\n'), ('raw-scanner2', '`x\n'),
         # malformed directives (rejected by the parser): after documents that are closed (quoted scalar, flow collection) they
         # may follow without an explicit document end
-        ('directive', '%YAML 2.0\n--- x\n'), ('directive2', '%YAML 1.1\n%YAML 1.1\n--- x\n'), ('directive3', '%TAG !a! x\n%TAG !a! y\n--- x\n')]
+        ('directive', '%YAML 2.0\n--- x\n'), ('directive2', '%YAML 1.1\n%YAML 1.1\n--- x\n'), ('directive3', '%TAG !a! x\n%TAG !a! y\n--- x\n'),
+        ('directive4', '%YAML 1.1\n%YAML 1.x\n--- x\n'), ('directive5', '%TAG !a! x\n%TAG !b y\n--- x\n')]
 
 
 def check_bad(T, nsizes, bad, api, be, Loader, block, ender=False):
@@ -413,7 +416,7 @@ def run_job(job, T):
         # one token much longer than a refill block: the look-ahead bound is relative to the end of the document, so it
         # must not grow with the length of the token that is being scanned
         scheds = [('default', 0), ('short-by-7', 7)]
-        for w in LONG_TOKENS + ('run',):
+        for w in LONG_TOKENS + ('run', 'dirs'):
             if w == 'cmt' and api != 'load_all':
                 continue      # marks of tokens / events / nodes end before a trailing comment; only load_all measures from the end of the document text
             for n in (block + 1, 3 * block + 5, 5 * block + 3, 9 * block + 1):
